@@ -314,3 +314,51 @@ def palette_counts(p, classes) -> dict:
         elif isinstance(x, Over):
             todo += [x.top, x.bottom]
     return out
+
+
+# ----------------------------------------------------------------------------------------
+# a dependent refinement that hands a value DOWN to the child through rec(..., initial_values=...): the value handed down
+# can be 0 (or empty, or False) -- it is handed down all the same
+# ----------------------------------------------------------------------------------------
+class Inject(MetaHandlerGenerator):
+    """the generated node's `level` field is exactly `level`"""
+
+    def __init__(self, level):
+        self.level = level
+
+    def generate(self, random, grammar, base_type, rec, dependent_values):
+        return rec(base_type, initial_values={"level": self.level})
+
+    def validate(self, v) -> bool:
+        return v.level == self.level
+
+
+class LExpr(ABC):
+    pass
+
+
+@dataclass
+class LLeaf(LExpr):
+    level: Annotated[int, IntRange(0, 3)]
+
+
+@dataclass
+class LNest(LExpr):
+    level: Annotated[int, IntRange(0, 3)]
+    body: Annotated[LExpr, Dependent("level", lambda level: Inject(max(level - 1, 0)))]
+
+
+def levels_grammar():
+    return extract_grammar([LLeaf, LNest], LExpr)
+
+
+def level_violations(e, out=None) -> list:
+    out = [] if out is None else out
+    if not (type(e.level) is int and 0 <= e.level <= 3):
+        out.append(f"level {e.level!r} outside 0..3 in {e}")
+    if isinstance(e, LNest):
+        expected = max(e.level - 1, 0)
+        if e.body.level != expected:
+            out.append(f"LNest(level={e.level}) has a body with level={e.body.level}, the dependent refinement demands {expected}")
+        level_violations(e.body, out)
+    return out
